@@ -388,7 +388,8 @@ class Tensor:
         # Go one tensor at a time and apply the chain rule to get its gradient
         prev_grad = self._grad if self.is_leaf else None
         self.grad = grad
-        self._grad = (grad.data if prev_grad is None else prev_grad + grad.data).astype(self.data.dtype)
+        # np.array: the sum of two 0-d arrays is a NumPy scalar, which later in-place additions would rebind (with their dtype) instead of updating
+        self._grad = np.array(grad.data if prev_grad is None else prev_grad + grad.data, dtype=self.data.dtype)
         for i, node in enumerate(reversed(ordered_nodes)):
             if node.grad_fn is not None:
                 #print(node.grad_fn)
